@@ -115,8 +115,8 @@ let run_ghost () =
   let find k = try Some (L.assoc k i) with Not_found -> None in
   out_bool (st = stg);
   out_bool (L.for_all (function
-    | AnalyzerG.GFlag (k, b) -> (match find k with Some m -> m.Analyzer.m_unreach = b | None -> false)
-    | AnalyzerG.GTop (k, e) -> (match find k with Some m -> m.Analyzer.m_end = e | None -> false)) lg);
+    | AnalyzerG.GStmt (k, d, b) -> (match find k with Some m -> m.Analyzer.m_unreach = b | None -> false) && (d || not b)
+    | AnalyzerG.GCase (b, lv, stops) -> Analyzer.any_stops i b = stops) lg);
   out_bool ((match find p.Syntax.p_pb with Some m -> m.Analyzer.m_end | None -> None) = r)
 
 let () = main [("analyze", run_analyze); ("oracle", run_oracle); ("ghost", run_ghost)]
